@@ -38,7 +38,7 @@ type config struct {
 	ctrl      string // "none" | "zero" | "0.0.0.0:60000" | "192.168.1.100:0" | "192.168.1.100:60000" | "10.0.0.7:54321"
 	protocol  string
 	bind      string // "" | "0.0.0.0:0" | "192.168.1.2:0" | "192.168.1.2:54321" | "192.168.1.2:60000" | "192.168.1.2:60005"
-	broadcast string // "" | "192.168.1.255:60000" | "192.168.1.255:60005"
+	broadcast string // "" | "192.168.1.255:60000" | "192.168.1.255:60005" | unusual ones (0.0.0.0:54321 ...)
 	bystander bool
 	newDevice bool
 }
@@ -353,6 +353,17 @@ func main() {
 			}
 		}
 	}
+	// unusual but configured broadcast addresses (the unspecified address with a port, the limited
+	// broadcast address on another port, a class-A directed broadcast): "configured" means used as is
+	for _, ctrl := range []string{"none", "zero", "0.0.0.0:60000", "192.168.1.100:0"} {
+		for _, bind := range []string{"", "192.168.1.2:54321"} {
+			for _, bcast := range []string{"0.0.0.0:54321", "0.0.0.0:60000", "255.255.255.255:60005", "10.255.255.255:60000", "192.168.1.100:60000"} {
+				for _, nd := range []bool{false, true} {
+					scenarios = append(scenarios, scenario(config{ctrl, "udp", bind, bcast, false, nd}))
+				}
+			}
+		}
+	}
 	// two (thorough: also three) clients with different configurations, one after the other in one process
 	reduced := []config{}
 	for _, ctrl := range []string{"none", "192.168.1.100:60000"} {
@@ -394,7 +405,7 @@ func main() {
 	if r.Worker == "" && r.Replay == "" {
 		e1.Conformance(r)
 	}
-	r.Rule("full cross product of 7 target-controller configurations (one of them the directed broadcast address of the simulated host's own subnet, as net.Interfaces reports it under the model) x 6 protocol strings x 6 bind addresses (two of them with the fixed port equal to the port of the default / configured broadcast address, one equal to a controller's port) x 3 broadcast settings x bystander controller x constructor (2952 configurations), each x 32 operations x controllers {silent, answering} as environment choices; plus every ordered pair (thorough: also every ordered triple over the 12 UDP ones) of 24 reduced configurations {unconfigured, configured} x {udp, tcp} x {no bind, two different local addresses on the same fixed port} x {default, configured broadcast address} as clients used one after the other in one process, each call judged against its own client's configuration; and the 16 fixed-bind-port ones with the bind port already held (UDP and TCP port space) by other sockets of the host (a call may fail without sending, but nothing may leave from another source); distinct = distinct (transport, destination, answered) labels")
+	r.Rule("full cross product of 7 target-controller configurations (one of them the directed broadcast address of the simulated host's own subnet, as net.Interfaces reports it under the model) x 6 protocol strings x 6 bind addresses (two of them with the fixed port equal to the port of the default / configured broadcast address, one equal to a controller's port) x 3 broadcast settings x bystander controller x constructor (2952 configurations), each x 32 operations x controllers {silent, answering} as environment choices; 80 more configurations with unusual configured broadcast addresses (0.0.0.0 with a port, 255.255.255.255 on another port, other directed broadcasts, a unicast address); plus every ordered pair (thorough: also every ordered triple over the 12 UDP ones) of 24 reduced configurations {unconfigured, configured} x {udp, tcp} x {no bind, two different local addresses on the same fixed port} x {default, configured broadcast address} as clients used one after the other in one process, each call judged against its own client's configuration; and the 16 fixed-bind-port ones with the bind port already held (UDP and TCP port space) by other sockets of the host (a call may fail without sending, but nothing may leave from another source); distinct = distinct (transport, destination, answered) labels")
 	r.Assume("reference routing function route() in this file, written from the property statement; protocol strings other than exactly \"tcp\" mean UDP")
 	r.Assume("simulated network: source address = bind address, ephemeral port when the bind port is 0")
 	r.Finish()
